@@ -8,9 +8,14 @@ Encodings (see the header of spec/Mesh.tla):
   bytes          {"len": L, "hs": [16-bit little-endian halves, zero padded]}
   uint32/float32 [lo16, hi16]
   geometry       small integers in a per-case unit 2^-ub
+  unit change    affine cases may carry a decimal scale 10^sc (sc in -6..6,
+                 spec["sc"]): matrix and translation are multiplied by it, the
+                 result is recorded in the unit 10^sc * 2^-(ub+mb); the case
+                 hands the scale to TLC as the exact rational [num, den]
 """
 import contextlib
 import csv
+import fractions
 import gzip
 import hashlib
 import io
@@ -184,14 +189,19 @@ def run_save(spec):
 # affine_transform_mesh
 # --------------------------------------------------------------------------
 def _matrix(spec):
-    """M holds integers in unit 2^-mb, tr integers in unit 2^-(ub+mb)"""
-    munit = float(1 << spec.get("mb", 0))
-    unit = float(1 << (spec.get("ub", 0) + spec.get("mb", 0)))
-    rows = [[x / munit for x in spec["M"][r]] + [spec["tr"][r] / unit] for r in range(3)]
+    """M holds integers in unit 2^-mb, tr integers in unit 2^-(ub+mb); both are
+    multiplied by the unit change 10^sc (each entry = the binary64 number
+    nearest to the exact rational)"""
+    munit = 1 << spec.get("mb", 0)
+    unit = 1 << (spec.get("ub", 0) + spec.get("mb", 0))
+    sc = fractions.Fraction(10) ** spec.get("sc", 0)
+    rows = [[float(fractions.Fraction(x, munit) * sc) for x in spec["M"][r]]
+            + [float(fractions.Fraction(spec["tr"][r], unit) * sc)] for r in range(3)]
     if spec.get("shape", "3x4") == "4x4":
         rows.append([0.0, 0.0, 0.0, 1.0])
     mat = np.array(rows, dtype=np.float64)
-    if spec.get("mdtype") == "int" and spec.get("ub", 0) == 0 and spec.get("mb", 0) == 0:
+    if spec.get("mdtype") == "int" and spec.get("ub", 0) == 0 and spec.get("mb", 0) == 0 \
+            and spec.get("sc", 0) >= 0:
         mat = mat.astype(np.int64)
     return mat
 
@@ -208,11 +218,36 @@ def ints_exact(a, unit):
     return r.astype(np.int64).tolist(), bool(np.all(r == a))
 
 
+def ints_scaled(a, unit, sc):
+    """the same for results carrying the decimal unit change 10^sc.
+    sc > 0: 10^sc and all products are exact in binary64 -> exactly integral.
+    sc < 0: 10^sc is not a binary fraction, every product is rounded (relative
+    error <= 1e-15): `exact` = every coordinate within 1e-9 of a whole number
+    of result units."""
+    a = np.asarray(a, dtype=np.float64) * unit
+    if a.ndim != 2 or a.shape[1] != 3:
+        return [], False
+    a = a / 10.0 ** sc if sc > 0 else a * 10.0 ** (-sc)
+    ok = bool(np.all(np.isfinite(a)) and np.all(np.abs(a) < 2 ** 30))
+    if not ok:
+        return [[0, 0, 0]] * a.shape[0], False
+    r = np.rint(a)
+    near = bool(np.all(r == a)) if sc > 0 else bool(np.all(np.abs(r - a) <= 1e-9))
+    return r.astype(np.int64).tolist(), near
+
+
+def scale_q(sc):
+    """10^sc as [num, den]"""
+    return [10 ** sc, 1] if sc >= 0 else [1, 10 ** (-sc)]
+
+
 def run_affine(spec):
     """spec: {"v": ints (unit 2^-ub), "ub", "t", "M": 3x3 ints (unit 2^-mb), "mb",
     "tr": ints (unit 2^-(ub+mb), the unit of the result), "vdtype", "tdtype",
-    "shape": "3x4"|"4x4", "mdtype"}"""
+    "shape": "3x4"|"4x4", "mdtype", "sc": decimal exponent of a unit change
+    applied to M and tr (default 0)}"""
     m = _mesh_module()
+    sc = spec.get("sc", 0)
     unit = float(1 << spec.get("ub", 0))
     runit = float(1 << (spec.get("ub", 0) + spec.get("mb", 0)))
     v = (np.array(spec["v"], dtype=np.float64).reshape(-1, 3) / unit).astype(spec.get("vdtype", "float32"))
@@ -220,13 +255,14 @@ def run_affine(spec):
     try:
         with silenced():
             v2, t2 = m.affine_transform_mesh(v, t, _matrix(spec))
-        vi, exact = ints_exact(v2, runit)
+        vi, exact = ints_exact(v2, runit) if sc == 0 else ints_scaled(v2, runit, sc)
         t2 = np.asarray(t2)
         ti = t2.astype(np.int64).tolist() if t2.ndim == 2 and t2.shape[1] == 3 else [[-1, -1, -1]]
         res = {"st": "ok", "cls": "", "v": vi, "t": ti, "exact": exact}
     except Exception as e:
         res = {"st": "exc", "cls": exc_name(e), "v": [], "t": [], "exact": False}
-    return {"mode": "affine", "v": spec["v"], "t": spec["t"], "M": spec["M"], "tr": spec["tr"], "res": res}
+    return {"mode": "affine", "v": spec["v"], "t": spec["t"], "M": spec["M"], "tr": spec["tr"],
+            "sc": scale_q(sc), "res": res}
 
 
 # --------------------------------------------------------------------------
